@@ -20,6 +20,7 @@ def subsets(fmts):
     return out
 
 
+LATE, L0, L1 = "l.txt", b"first content of the late file", b"ALTERED content of the late file"
 NFD_NAME = "cafe\u0301 \u212b.txt"   # decomposed accent + a singleton that NFC would replace
 
 
@@ -100,6 +101,8 @@ def judge(pre, post, mode, fmts, res, edits_state):
     new = [g for g in ref.generations(post, hroot) if g["path"] not in pre]
     per, first_gen = ref.earliest(pre_g, rel)
     altered = any(ref.digest(f, content) != d for f, (d, _) in per.items())
+    if mode == "late" and pre.get(LATE) is not None:   # the exit code answers for every file of the run
+        altered = altered or any(ref.digest(f, pre[LATE]) != d for f, (d, _) in ref.earliest(pre_g, LATE)[0].items())
     sig = {"mode": mode}
 
     def V(kind, detail, **extra):
@@ -190,7 +193,14 @@ def expand(ctx, item):
             m2 = dict(meta, gens=meta["gens"] + 1)
             cont = post if m2["gens"] < max_gen else None
             out.append((["create"] + fmts, cont, m2, vs, outcome_of(post, mode, res)))
-    if meta["edits"] < max_edits and meta["gens"] >= 1 and meta["gens"] < max_gen and not meta.get("just_edited"):
+    if mode == "late":
+        # a second file that the history first records in generation 2 and that is altered / restored later on
+        # (judged by the every-other-file part of the relation); the tracked file itself stays as it is
+        if meta["edits"] < max_edits and 1 <= meta["gens"] < max_gen and not meta.get("just_edited") and (LATE in tree or meta["gens"] == 1):
+            t2 = dict(tree)
+            t2[LATE] = L1 if tree.get(LATE) == L0 else L0
+            out.append((["set", LATE, "L1" if t2[LATE] == L1 else "L0"], t2, dict(meta, edits=meta["edits"] + 1, just_edited=True), [], "edit"))
+    elif meta["edits"] < max_edits and meta["gens"] >= 1 and meta["gens"] < max_gen and not meta.get("just_edited"):
         t2 = dict(tree)
         t2[tp] = A1 if tree[tp] == A0 else A0
         out.append((["set", "A1" if t2[tp] == A1 else "A0"], t2, dict(meta, edits=meta["edits"] + 1, just_edited=True),
@@ -226,6 +236,9 @@ def main(tier, seed):
                 ("sf", ["c4", "md5", "sha1", "xxh64"], 3, 2)]
     plan.append(("twins", ["md5", "xxh64"], 3 if tier == "quick" else 4, 1))
     plan.append(("nfd-name", ["md5", "xxh64"], 3, 2))   # the tracked file's name is not in Unicode NFC form
+    # a long history of one format (generation numbers pass 9 -> 10): the first digest stays the reference whatever was recorded since
+    plan.append(("folder", ["md5"], 12, 3))
+    plan.append(("late", ["md5"], 12, 4))
     for mode, fmts, max_gen, max_edits in plan:
         fsets = subsets(fmts)
         meta = {"mode": mode, "fsets": fsets, "max_gen": max_gen, "max_edits": max_edits, "gens": 0, "edits": 0}
